@@ -1,7 +1,7 @@
 (* C14 property theorems. This file contains only statements closed by
    [exact lemma] and Print Assumptions. *)
 From Coq Require Import String.
-From V Require Import Common.Base C14.Compat C14.Spec C14.LowerGraph C14.CompatProofs C14.TableProofs C14.LowerClosed C14.LowerProofs.
+From V Require Import Common.Base C14.Compat C14.Spec C14.LowerGraph C14.CompatProofs C14.TableProofs C14.LowerClosed C14.LowerProofs C14.Constructs.
 
 (* a newer ES target never makes more features unsupported: every pair of years *)
 Theorem es_monotone : forall y1 y2 f, y1 <= y2 ->
@@ -132,3 +132,19 @@ Theorem runtime_variants_closed : forall (U : fset) n name g,
   In g (helper_feats U n name) -> U g = false \/ dispose U g = Lowered.
 Proof. exact runtime_variants_closed_l. Qed.
 Print Assumptions runtime_variants_closed.
+
+(* entry points that are not compat features (JSX elements and spreads in every JSX mode,
+   keep-names, TypeScript decorators/enums/namespaces): a successful compile writes only
+   supported syntax, syntax lowered when the runtime is compiled, or the silent hashbang *)
+Theorem compile_with_constructs_sound_partial : forall (U : fset) cs prog out,
+  base_ok U = true -> compile_with U cs prog = Ok out ->
+  forall g, In g out -> U g = false \/ dispose U g = Lowered \/ dispose U g = Silent \/ dispose U g = NotSyntax.
+Proof. exact compile_with_sound_l. Qed.
+Print Assumptions compile_with_constructs_sound_partial.
+
+(* <a {...x} />: with object spread unsupported no object spread is written, for every such U *)
+Theorem jsx_spread_lowered : forall (U : fset) out,
+  base_ok U = true -> U FObjectRestSpread = true -> compile U (construct_features U CJsxSpread) = Ok out ->
+  existsb (feature_eqb FObjectRestSpread) out = false.
+Proof. exact jsx_spread_lowered_l. Qed.
+Print Assumptions jsx_spread_lowered.
